@@ -225,6 +225,8 @@ func (vm *VM) resetPath() {
 	vm.steps = 0
 	vm.preempts = 0
 	vm.switches = 0
+	vm.stallSpanUsed = 0
+	vm.mainKeepOK = false
 	vm.nextID = 0
 	vm.timers = nil
 	vm.now = IntV{}
